@@ -133,6 +133,14 @@ class Scenario:
         return w
 
 
+def content(tr, rel):
+    """what a reader of <rel> gets: a symbolic link is followed (one level, inside the tree)"""
+    b = tr.get(rel)
+    if isinstance(b, tuple):
+        b = tr.get(os.path.normpath(os.path.join(os.path.dirname(rel), b[1])))
+    return b
+
+
 def classify_files(sc, tr, old, new):
     """per fragment of sc.frs: O / N / ? / -   and the temporary files present"""
     cls = []
@@ -355,7 +363,7 @@ def main():
             continue
         sc.old = {i: (open(os.path.join(sc.tmpl, LAYOUT[i][0]), "rb").read() if os.path.exists(os.path.join(sc.tmpl, LAYOUT[i][0])) else None)
                   for i in range(len(LAYOUT))}
-        sc.new = {i: norm(sc.final[LAYOUT[i][0]]) for i in sc.frs if LAYOUT[i][0] in sc.final}
+        sc.new = {i: norm(content(sc.final, LAYOUT[i][0])) for i in sc.frs if content(sc.final, LAYOUT[i][0]) is not None}
         toks, idxs, tmps = tokens(sc.calls, sc)
         sc.toks, sc.idxs = toks, idxs
         sc.n = len(sc.calls)
@@ -380,7 +388,12 @@ def main():
                 want = 0 if i in sc.frs else (1 if i in sc.mods else 0)
                 if h["first"]["flags"][i] != want:
                     exp_flags_ok = False
-        if h["first"]["ret"] != 0 or tm or not exp_flags_ok or len(chunks) != len(sc.frs):
+        sc.nomodel = False
+        if len(chunks) != len(sc.frs) and not sc.include:
+            sc.nomodel = True
+            model_fail(sc, "%s: %d temporary files were created for %d fragments to write -- some fragment is not written through a temporary file (real trace %s)" % (
+                sc.op, len(chunks), len(sc.frs), merge_writes(toks)), {})
+        if h["first"]["ret"] != 0 or tm or not exp_flags_ok:
             spec_fail(sc, "flush/no-fault", "flush without any fault: ret=%s flags=%s temp files=%s (expected success, flags of written fragments cleared, no temporary file)" % (
                 h["first"]["ret"], h["first"]["flags"], sorted(tm)), {"observed": sc.raw_out})
             continue
@@ -389,7 +402,7 @@ def main():
     # ---------------------------------------------------------------- model predictions
     lines, owners = [], []
     for sc in good:
-        if len(sc.perm) != len(sc.frs) or sc.include:
+        if len(sc.perm) != len(sc.frs) or sc.include or sc.nomodel:
             continue
         lines.append(model_case(cl, -1, sc, sc.chunks, sc.oldlen, sc.perm)); owners.append((sc, -1))
         for k in range(len(sc.toks)):
